@@ -382,7 +382,12 @@ def check_item(item):
       o2 = observe(g, mod, bits, chk)
       res['runs'] += 1
       for v in chk.violations[before:]:
-        first.setdefault(v[0], (v[1], list(bits)))
+        sig = v[0]
+        if sig == 'getter-raises' and 'NameError' in v[1] and o1['outcome'] == ('raise', 'NameError'):
+          # the variable is genuinely unbound at this point of the ORIGINAL run too (which ends in the same
+          # NameError at its first read): recorded finding D20, kept apart from any other raising getter
+          sig = 'getter-raises-unbound-in-original'
+        first.setdefault(sig, (v[1], list(bits)))
       implicit = o1['outcome'][0] == 'raise' and o1['outcome'][1] != 'ValueError'
       same = (o1['outcome'] == o2['outcome']) if implicit else all(o1[k] == o2[k] for k in ('outcome', 'events', 'a', 'G', 'GS'))
       if not same:
@@ -423,10 +428,30 @@ def minimise(f):
         return g
     return None
   best = f
+  import signal
+
+  class _Slow(Exception):
+    pass
+
+  def _alarm(signum, frame):
+    raise _Slow()
+  t_end = time.time() + 40
   for _ in range(2):
     for i in range(len(lines) - 2, start + 1, -1):     # keep the def line, the first and the last statement
+      if time.time() > t_end:
+        break
+      if 'fuel' in lines[i]:
+        continue                                       # the fuel counters make every loop terminate: never deleted
       cand = lines[:i] + lines[i + 1:]
-      g = fails(cand)
+      old_handler = signal.signal(signal.SIGALRM, _alarm)
+      signal.alarm(10)
+      try:
+        g = fails(cand)
+      except _Slow:
+        g = None
+      finally:
+        signal.alarm(0)
+        signal.signal(signal.SIGALRM, old_handler)
       if g is not None:
         lines, best = cand, g
   out = dict(best)
@@ -476,7 +501,7 @@ def main():
     evaluated = sites = runs = conv_errors = done = programs = 0
     stats = {}
     failures, samples, seen, conv_samples = [], [], set(), []
-    for r in harness.pool_map(check_item, items, chunksize=2):
+    for r in harness.pool_map(check_item, items, chunksize=2, deadline=t0 + budget + 20):
       done += 1
       if time.time() - t0 > budget:
         break
@@ -505,7 +530,9 @@ def main():
         if key not in seen and len(failures) < a.maxfail:
           seen.add(key)
           failures.append(f)
-    failures = [minimise(f) if f['kind'] == 'contract' else f for f in failures]
+    # (minimisation re-converts variants of the program in this process: skipped when the budget is already spent, e.g.
+    #  on a tree where conversions have become pathologically slow)
+    failures = [minimise(f) if f['kind'] == 'contract' and time.time() - t0 < budget else f for f in failures]
     harness.emit(dict(
         evaluated=evaluated, distinct_nontrivial=sites, programs=programs, runs=runs, items_done=done, items_total=len(items),
         truncated_by_budget=done < len(items), wall_seconds=round(time.time() - t0, 1), conversion_errors=conv_errors,
